@@ -1838,9 +1838,13 @@ func (e *CoreExtension) filterKeys(value interface{}, args ...interface{}) (inte
 		return keys, nil
 	}
 
-	// If it's a pointer, dereference it and try again
-	if rv.Kind() == reflect.Ptr && !rv.IsNil() {
-		return e.filterKeys(rv.Elem().Interface(), args...)
+	// If it's a pointer, dereference it and try again (a few levels: a pointer
+	// that leads back to itself never ends)
+	for depth := 0; depth < 8 && (rv.Kind() == reflect.Ptr || rv.Kind() == reflect.Interface) && !rv.IsNil(); depth++ {
+		rv = rv.Elem()
+		if rv.Kind() == reflect.Map && rv.CanInterface() {
+			return e.filterKeys(rv.Interface(), args...)
+		}
 	}
 
 	return nil, fmt.Errorf("cannot get keys from %T, expected map", value)
@@ -1852,7 +1856,8 @@ func (e *CoreExtension) filterMerge(value interface{}, args ...interface{}) (int
 	if rv.Kind() == reflect.Slice || rv.Kind() == reflect.Array {
 		// A typed slice ([]string, []int, ...) can only hold its own element type,
 		// the arguments may hold anything: merge into a []interface{} then
-		if rv.Type().Elem().Kind() != reflect.Interface || rv.Kind() == reflect.Array {
+		// (so can a slice of an interface type that has methods, such as []error)
+		if rv.Type().Elem().Kind() != reflect.Interface || rv.Type().Elem().NumMethod() > 0 || rv.Kind() == reflect.Array {
 			merged := make([]interface{}, 0, rv.Len())
 			for i := 0; i < rv.Len(); i++ {
 				merged = append(merged, rv.Index(i).Interface())
